@@ -436,6 +436,35 @@ def run_shard(shard):
                 res["distinct"].add(("ctor-bits", exc.__name__))
             except Exception as e:
                 add_violation(res, "C05:ctor-wrong-exception", f"Frame({bits!r},0) raised {e!r}", {"op": "ctor", "w": repr(bits), "v": 0})
+        # the same value domain through the constructors of the frame subclasses the library hands out
+        from dali import frame as FM
+        subs = [("BackwardFrame", lambda v: FM.BackwardFrame(v), 8), ("BackwardFrameError", lambda v: FM.BackwardFrameError(v), 8)] + \
+               [(f"ForwardFrame({w})", (lambda v, w=w: FM.ForwardFrame(w, v)), w) for w in (1, 8, 16, 24, 25)]
+        for name, mk, w in subs:
+            for v in (-1, -2, -128, -255, -256, -257, -(1 << w), -(1 << 31), 1 << w, (1 << w) + 1, 1 << (w + 8), 1 << 64):
+                res["evaluations"] += 1
+                res["transitions"] += 1
+                try:
+                    fr = mk(v)
+                    add_violation(res, "C05:ctor-accepts", f"{name} built from {v} accepted: as_integer {fr.as_integer}, len {len(fr)}", {"op": "ctor", "w": name, "v": v})
+                except ValueError:
+                    res["distinct"].add(("ctor-sub", name, "ValueError"))
+                except Exception as e:
+                    add_violation(res, "C05:ctor-wrong-exception", f"{name} built from {v} raised {e!r}", {"op": "ctor", "w": name, "v": v})
+            for v in (0, 1, (1 << w) - 1, (1 << w) // 2):
+                res["evaluations"] += 1
+                fr = mk(v)
+                if len(fr) != w or fr.as_integer != v or not (fr == Frame(w, v)) or fr.pack != Frame(w, v).pack:
+                    add_violation(res, "C05:ctor-value", f"{name} built from {v}: len {len(fr)}, as_integer {fr.as_integer}", {"op": "ctor", "w": name, "v": v})
+            for bad in (1.5, "1", None):
+                res["evaluations"] += 1
+                try:
+                    mk(bad)
+                    add_violation(res, "C05:ctor-accepts", f"{name} built from {bad!r} accepted", {"op": "ctor", "w": name, "v": repr(bad)})
+                except (TypeError, ValueError):
+                    pass
+                except Exception as e:
+                    add_violation(res, "C05:ctor-wrong-exception", f"{name} built from {bad!r} raised {e!r}", {"op": "ctor", "w": name, "v": repr(bad)})
         sample(res, {"ctor": "negative / oversized / non-integer width rejected"})
     return res
 
